@@ -34,6 +34,13 @@ def gen_count(name: str, k: int, *args, **kwargs):
         yield (name, i, tuple(args), tuple(sorted(kwargs.items())))
 
 
+def gen_count_falsy(kind: str, k: int, *args, **kwargs):
+    """yields k values that are None / falsy (a surplus or missing value must be noticed whatever the values are)"""
+    falsy = [None, 0, "", False, (), 0.0]
+    for i in range(k):
+        yield None if kind == "none" else falsy[i % len(falsy)]
+
+
 # ---------------------------------------------------------------- direct evaluation of a graph (the reference)
 def eval_graph(g: Graph):
     vals: dict = {}
@@ -262,6 +269,11 @@ def fam_miscount():
                     p = Node("parent", outputs=outnames(N, style), payload=(functools.partial(gen_count, "parent", N + d), [], {}))
                     return Graph([p])
                 yield f"miscount N={N} yields {N + d} {style}", {"family": "miscount", "N": N, "d": d, "style": style}, build
+            for vals in ("none", "falsy"):
+                def build(N=N, d=d, vals=vals):
+                    p = Node("parent", outputs=outnames(N, "decimal"), payload=(functools.partial(gen_count_falsy, vals, N + d), [], {}))
+                    return Graph([p])
+                yield f"miscount N={N} yields {N + d} values all {vals}", {"family": "miscount", "N": N, "d": d, "style": "decimal", "vals": vals}, build
 
 
 def check_fluent(tag, rp, build, out):
@@ -270,6 +282,22 @@ def check_fluent(tag, rp, build, out):
         g = b.graph()
     except Exception as e:
         out.append(({"monitor": "fluent_raised", "cause": type(e).__name__}, f"{tag}: {e!r}"[:300], rp))
+        return
+    # graph level, independent of the runner: by the reference evaluation (i-th yielded value <-> i-th declared output)
+    # the consumer at coordinate i of the yields dimension must receive the i-th yielded value
+    try:
+        ref = eval_graph(g)
+        kpos = list(b.nodes.dims).index("k")
+        for idx in np.ndindex(b.nodes.shape):
+            n = b.nodes.data[idx]
+            n = n if isinstance(n, Node) else n.parent
+            got = ref[(n.name, Node.DEFAULT_OUTPUT)]
+            if int(round(float(got[1]))) % 100 != idx[kpos]:
+                out.append(({"monitor": "value_mismatch", "cause": "fluent: coordinate i of the yields dimension is not wired to the i-th declared output of the generator node"},
+                            f"{tag}: coordinate k={idx[kpos]} is wired to the output holding yielded value #{int(round(float(got[1]))) % 100}", rp))
+                return
+    except Exception as e:
+        out.append(({"monitor": "fluent_raised", "cause": f"reference evaluation: {type(e).__name__}"}, f"{tag}: {e!r}"[:300], rp))
         return
     n_before = len(out)
     check_graph(tag, g, rp, out)
@@ -325,6 +353,8 @@ def run_case(c):
     else:
         d = rp["d"]
         hint = "generator yields exactly one value fewer than declared (N-1): accepted silently" if d == -1 else ("fewer values than declared" if d < 0 else "more values than declared")
+        if rp.get("vals"):
+            hint += f" (yielded values all {rp['vals']})"
         check_graph(tag, build(), rp, out, expect_fail={"parent"}, cause_hint=hint)
     return out
 
